@@ -131,6 +131,14 @@ class ReadGthAllStructures:
                             return Result(REFUTED, backend="engine-Z", witness=wit, replayed=ok, replay_info=info,
                                           detail=f"read_gth: {bad}")
         except OutsideSubset as e:
+            # outside the modelled subset: the contract is evaluated natively on a few structures (a failure refutes, a pass proves nothing)
+            for wit in (dict(lmax=2, Nproj=[2, 1], nloc=2), dict(lmax=3, Nproj=[3, 2, 1], nloc=4), dict(lmax=0, Nproj=[], nloc=0), dict(lmax=1, Nproj=[3], nloc=1)):
+                try:
+                    ok, info = self.replay(wit)
+                except Exception as e2:  # noqa: BLE001
+                    ok, info = True, dict(raised=f"{type(e2).__name__}: {e2}")
+                if ok:
+                    return Result(REFUTED, backend="native", witness=wit, replayed=True, replay_info=info, detail=f"read_gth on a file with structure {wit}: {str(info)[:300]}")
             return Result(UNDECIDED, backend="engine-Z", detail=f"outside subset: {e}")
         return Result(DISCHARGED, backend="engine-Z (complete enumeration of the file structures, symbolic values)",
                       stats=dict(structures=n))
@@ -190,7 +198,11 @@ class BundledFiles:
                     continue
                 n += 1
                 atom, q = f.name.split("-q")
-                psp = read_gth(atom, int(q), psp_path=fam)
+                try:
+                    psp = read_gth(atom, int(q), psp_path=fam)
+                except Exception as e:  # noqa: BLE001  the real parser on a bundled file: an exception is a failure of the code, not of the checker
+                    bad.append(f"{fam}/{f.name}: read_gth raises {type(e).__name__}: {e}")
+                    continue
                 toks = [ln.split() for ln in f.read_text().splitlines()]
                 zion = sum(int(t) for t in toks[1])
                 h = np.asarray(psp["h"])
